@@ -497,38 +497,57 @@ def runParser (T : TzTable) (st : Settings) (le : LocEntry) (s : String) (fmts :
      | .error e => if caughtBy Gen.exceptTryParser e then .inr (.ok none) else .inr (.error e))
   else .inr (.error .key)
 
-def localeParse (T : TzTable) (st : Settings) (le : LocEntry) (s : String) (fmts : List String) : GddOutcome := Id.run do
-  for pname in st.parsers do
+/-- `_DateLocaleParser._parse`: the parsers of PARSERS in order; the first valid DateData wins -/
+def localeParseGo (T : TzTable) (st : Settings) (le : LocEntry) (s : String) (fmts : List String) : List String → GddOutcome
+  | [] => .res (.ok none)
+  | pname :: rest =>
     match runParser T st le s fmts pname with
-    | .inl why => return .bad why
-    | .inr (.error (.other "iana")) => return .bad "iana"
-    | .inr (.error e) => return .res (.error e)
+    | .inl why => .bad why
+    | .inr (.error (.other "iana")) => .bad "iana"
+    | .inr (.error e) => .res (.error e)
     | .inr (.ok (some (x, p))) =>
-      if Gen.validPeriods.contains p.name then return .res (.ok (some { x, period := p, locale := le.name }))
-    | .inr (.ok none) => pure ()
-  return .res (.ok none)
+      if Gen.validPeriods.contains p.name then .res (.ok (some { x, period := p, locale := le.name }))
+      else localeParseGo T st le s fmts rest
+    | .inr (.ok none) => localeParseGo T st le s fmts rest
+
+def localeParse (T : TzTable) (st : Settings) (le : LocEntry) (s : String) (fmts : List String) : GddOutcome :=
+  localeParseGo T st le s fmts st.parsers
+
+/-- the loop over the selected locales: a locale is tried when it is applicable to the string or to its zone-stripped form;
+    the first one whose parse yields a result wins -/
+def tryLocales (T : TzTable) (st : Settings) (cands : List String) (s : String) (fmts : List String) : List LocEntry → GddOutcome
+  | [] => .res (.ok none)
+  | le :: rest =>
+    if cands.any (fun c => le.L.isApplicable c) then
+      match localeParse T st le s fmts with
+      | .res (.ok none) => tryLocales T st cands s fmts rest
+      | r => r
+    else tryLocales T st cands s fmts rest
+
+/-- the DEFAULT_LANGUAGES fallback: tried without an applicability test -/
+def tryDefaults (T : TzTable) (st : Settings) (s : String) (fmts : List String) : List LocEntry → GddOutcome
+  | [] => .res (.ok none)
+  | le :: rest =>
+    match localeParse T st le s fmts with
+    | .res (.ok none) => tryDefaults T st s fmts rest
+    | r => r
+
+/-- the strings a locale's applicability is tested on -/
+def candidates (T : TzTable) (s : String) : List String :=
+  let stripped := (popTz T s).1
+  if stripped == s then [s] else [s, stripped]
 
 /-- `DateDataParser.get_date_data` given the ordered locale list (`locs`) and the DEFAULT_LANGUAGES locales (`dflt`) -/
-def getDateData (T : TzTable) (st : Settings) (locs dflt : List LocEntry) (s : String) (fmts : List String) : GddOutcome := Id.run do
+def getDateData (T : TzTable) (st : Settings) (locs dflt : List LocEntry) (s : String) (fmts : List String) : GddOutcome :=
   match parseWithFormats st s fmts with
-  | .bad => return .bad "format"
-  | .res (.error (.other "iana")) => return .bad "iana"
-  | .res (.error e) => return .res (.error e)
-  | .res (.ok (some (x, p))) => return .res (.ok (some { x, period := p, locale := "" }))
-  | .res (.ok none) => pure ()
-  let s := sanitizeDate s
-  let stripped := (popTz T s).1
-  let cands := if stripped == s then [s] else [s, stripped]
-  for le in locs do
-    for c in cands do
-      if le.L.isApplicable c then
-        match localeParse T st le s fmts with
-        | .res (.ok none) => pure ()
-        | r => return r
-  for le in dflt do
-    match localeParse T st le s fmts with
-    | .res (.ok none) => pure ()
-    | r => return r
-  return .res (.ok none)
+  | .bad => .bad "format"
+  | .res (.error (.other "iana")) => .bad "iana"
+  | .res (.error e) => .res (.error e)
+  | .res (.ok (some (x, p))) => .res (.ok (some { x, period := p, locale := "" }))
+  | .res (.ok none) =>
+    let s := sanitizeDate s
+    match tryLocales T st (candidates T s) s fmts locs with
+    | .res (.ok none) => tryDefaults T st s fmts dflt
+    | r => r
 
 end DP
